@@ -50,6 +50,8 @@ def emit_cases(ctx, tier):
                  (dict(N=2, A=1, MaxTerms=3, MaxList=3, MaxSwaps=0), "InitLists", {"Factors": "SignedFactors"}),
                  # rank-deficient cuts need >= 4 terms over two non-trivial symbols per site: unit factors keep this family small
                  (dict(N=2, A=2, MaxTerms=4, MaxList=4, Factors="{1}", MaxSwaps=0), "InitSets", None),
+                 # one-site models (several terms on the only site, with and without offset)
+                 (dict(N=1, A=2, MaxTerms=3, MaxList=3, MaxSwaps=0), "InitSets", {"Factors": "SignedFactors"}),
                  # product tables S_1 x ... x S_N with unit prefactors: rank-deficient prefactor matrices at every cut
                  (dict(N=2, A=2, MaxTerms=6, MaxList=6, Factors="{1}", MaxSwaps=0), "InitProducts", None),
                  (dict(N=3, A=1, MaxTerms=4, MaxList=4, Factors="{1}", MaxSwaps=0), "InitProducts", None)]
@@ -60,6 +62,7 @@ def emit_cases(ctx, tier):
                  (dict(N=4, A=2, MaxTerms=2, MaxList=2, Factors="{1}", MaxSwaps=0), "InitSets", None),
                  (dict(N=2, A=2, MaxTerms=4, MaxList=4, MaxSwaps=0), "InitSets", {"Factors": "SignedFactors"}),
                  (dict(N=2, A=1, MaxTerms=4, MaxList=4, MaxSwaps=0), "InitLists", {"Factors": "SignedFactors"}),
+                 (dict(N=1, A=2, MaxTerms=3, MaxList=3, MaxSwaps=0), "InitSets", {"Factors": "SignedFactors"}),
                  (dict(N=2, A=2, MaxTerms=6, MaxList=6, Factors="{1}", MaxSwaps=0), "InitProducts", None),
                  (dict(N=3, A=2, MaxTerms=6, MaxList=6, Factors="{1}", MaxSwaps=0), "InitProducts", None)]
     cases = []
@@ -70,7 +73,7 @@ def emit_cases(ctx, tier):
         if not r["emitted"]:
             raise MachineryError("TLC emitted no cases")
         for e in r["emitted"]:
-            e["_always"] = (init == "InitProducts")
+            e["_always"] = (init == "InitProducts" or consts["N"] == 1)
         cases.extend(r["emitted"])
     return cases
 
